@@ -195,6 +195,8 @@ static void run_walks(uint64_t idx, pv_rng* rng) {
     reset_all();
     pv_w->reuse_mode = (int)(idx & 1);         /* every other walk: the allocator hands the most recently freed block out again */
     if (pv_w->reuse_mode) PV_COUNT("walks.with_address_reusing_allocator", 1);
+    pv_w->align8_mode = (int)((idx >> 1) & 1);
+    if (pv_w->align8_mode) PV_COUNT("walks.with_8_byte_aligned_blocks", 1);
     int steps = 50 + (int)pv_randn(rng, 151);
     bool after_ctor_change = false;
     for (int k = 0; k < steps && !g_bad; ++k) {
@@ -220,7 +222,7 @@ static void run_walks(uint64_t idx, pv_rng* rng) {
         if (had && g_state_changed) after_ctor_change = true;
         observe_others(target, "step", rng);
     }
-    pv_w->reuse_mode = 0; if (pv_w->cache_ptr) { free(pv_w->cache_ptr); pv_w->cache_ptr = NULL; }
+    pv_w->align8_mode = 0; pv_w->reuse_mode = 0; if (pv_w->cache_ptr) { free(pv_w->cache_base); pv_w->cache_ptr = NULL; }
     if (!g_bad && after_ctor_change) { PV_DISTINCT("nontrivial", g_seqhash); PV_COUNT("walks.matched_model", 1); }
     if (idx < 3) pv_sample("walk", "%d operations, %d seeds live at the end, enabled mask %u, table %c", steps, nlive(), M_mask, 'A' + M_tag);
 }
